@@ -133,9 +133,9 @@ theorem otherEnd_of_incident {u w : Nat} {e : Nat × Nat} (hu : incident u e = t
       | inl h' => exact absurd h' h1
       | inr h' => exact absurd (h.symm.trans h') hne
 
-theorem incident_otherEnd {u : Nat} {e : Nat × Nat} (hu : incident u e = true) :
+theorem incident_otherEnd {u : Nat} {e : Nat × Nat} (_hu : incident u e = true) :
     incident (otherEnd u e) e = true := by
-  simp only [incident, Bool.or_eq_true, beq_iff_eq] at hu ⊢
+  simp only [incident, Bool.or_eq_true, beq_iff_eq]
   unfold otherEnd
   by_cases h1 : e.1 = u
   · simp only [h1, beq_self_eq_true, if_true, or_true]
